@@ -275,7 +275,7 @@ def c05_streams(run, tier, seed):
     for k in range(6 if tier == "quick" else 40):
         mn = rng.choice(mns)
         tb = rng.choice([0x40, 0x50, 0x60])
-        toff = rng.randrange(0x8000, 0xFF00)
+        toff = rng.randrange(0x8040, 0xFF00)
         as_rom = f".map identifier=1 bank_range=0x00,0x7d addr_range=0x8000,0xffff mask=0x8000\n"
         as_ram = (f".map identifier=1 bank_range=0x00,0x3f addr_range=0x8000,0xffff mask=0x8000\n"
                   f".map identifier=2 bank_range=0x{tb:x},0x{tb + 1:x} addr_range=0,0xffff mask=0x10000 writable=1\n")
